@@ -12,6 +12,7 @@ import RosedVerif.Model.BridgeWrap
 import RosedVerif.Model.BridgeOps
 import RosedVerif.Model.BridgeEditorOps
 import RosedVerif.Model.BridgeEditorParas
+import RosedVerif.Model.NoLossModel
 namespace RosedVerif.Props
 open RosedVerif RosedVerif.Spec
 variable {α : Type} (tk : Toks α)
@@ -93,5 +94,32 @@ theorem C07_indentOpts_code_points {V : List (List Int)} (hV : VocabStable V = t
     Editor.indentOpts cxA ed.flat level o.flat =
       (Editor.indentOpts cxB ed level o).map Editor.flat :=
   indentOpts_bridge hV ed ht level o hpp hS hi
+
+open RosedVerif.NoLossModel
+
+/-- **Wrap loses no text** (exact form): splitting the output lines at whitespace gives, in order, the pieces of the input's words; un-hyphenating the pieces of each word gives the word back; every non-final piece is exactly `w` tokens ending in the hyphen -/
+theorem C07_wrap_no_loss {α : Type} (tk : Spec.Toks α) {w : Nat}
+    (hw : 2 ≤ w)
+    (hsp : tk.ws tk.sp = true)
+    (hhy : tk.ws tk.hy = false)
+    (l : List α) :
+    ∃ pss : List (List (List α)),
+      (Spec.wrapLines tk w l).flatMap (words tk) = pss.flatten ∧
+      pss.map unhyphen = words tk l ∧
+      (∀ ps ∈ pss, ps ≠ [] ∧ ∀ p ∈ ps.dropLast, p.length = w ∧ p.getLast? = some tk.hy) ∧
+      (l ≠ [] → ∃ groups : List (List (List α)), groups.flatten = pss.flatten ∧
+        (∀ g ∈ groups, g ≠ []) ∧ Spec.wrapLines tk w l = groups.map (joinSp tk)) :=
+  C07_wrap_no_loss_m tk hw hsp hhy l
+
+/-- … as a function of the output alone: `dehyphen` (split at whitespace, glue every run of exactly `w` tokens ending in the hyphen to the next) recovers the input's word list, provided no word of exactly `w` tokens ends in a hyphen (`HyOK` — necessary: `NoLoss.dehyphen_impossible`, two different texts with the same wrap) -/
+theorem C07_wrap_dehyphen {α : Type} (tk : Spec.Toks α) [DecidableEq α]
+    {w : Nat}
+    (hw : 2 ≤ w)
+    (hsp : tk.ws tk.sp = true)
+    (hhy : tk.ws tk.hy = false)
+    (l : List α)
+    (h : HyOK tk w l) :
+    dehyphen tk w (Spec.wrapLines tk w l) = words tk l :=
+  C07_wrap_dehyphen_m tk hw hsp hhy l h
 
 end RosedVerif.Props
